@@ -1,13 +1,63 @@
 """C12 — CountingPtr: reference-count conservation by path-sensitive effect summaries
-over a finite alias model; ReferenceCounter atomic-RMW rules."""
+over a finite alias model; ReferenceCounter atomic-RMW rules.
+
+Verdict policy of this file: every violation is a concrete counterexample of an evaluation — a scenario of the abstract
+run (Interp) in which a count, a pointer or a destruction is wrong, or a counter value for which a ReferenceCounter member
+(CounterRun) computes the wrong result / performs the wrong sequence of atomic operations.  Both evaluators are closed
+world: a statement, expression, call, initialiser or atomic operation they do not model exactly raises dtable.Undecidable
+(exit 2), never a violation.  Nothing is concluded from the absence of a syntactic shape; locals, parameters and the two
+data members (PTR_FIELD, COUNT_FIELD) are identified by role and type, not by name."""
 import itertools
 
 from engine import ir, dtable, match
-from engine.ir import kids, strip_casts, const_int, ref_of
+from engine.ir import kids, const_int
 
 CP = "tlx::CountingPtr"
 RC = "tlx::ReferenceCounter"
 NULL = "null"
+UNINIT = "uninit"
+
+PTR_FIELD = ["ptr_"]          # the pointer field of CountingPtr: its one data member of pointer type, whatever its name
+CASTS = ("ImplicitCastExpr", "CStyleCastExpr", "CXXStaticCastExpr", "CXXFunctionalCastExpr", "CXXReinterpretCastExpr",
+         "CXXConstCastExpr", "ParenExpr")
+CONSTRUCTS = ("CXXConstructExpr", "CXXTemporaryObjectExpr")
+LVALUE_KINDS = ("MemberExpr", "DeclRefExpr", "This")
+
+
+def sc(n):
+    """looks through casts and parentheses ONLY (a copy/move construction of a CountingPtr is an operation of its own here)"""
+    while n is not None and n["k"] in CASTS and kids(n):
+        n = kids(n)[0]
+    return n
+
+
+def is_cp_ty(ty):
+    ty = (ty or "").strip()
+    return ty.startswith("tlx::CountingPtr<") or ty.startswith("const tlx::CountingPtr<")
+
+
+def is_ref_ty(ty):
+    return (ty or "").rstrip().endswith("&")
+
+
+def is_assert(s):
+    """the expansion of assert(): cond ? void(0) : __assert_fail(...)"""
+    return s is not None and s["k"] == "ConditionalOperator" and \
+        any(c.get("callee", {}).get("noreturn") for c in ir.walk(s) if "callee" in c)
+
+
+def resolve_ptr_field(tu):
+    names = set()
+    for r in tu.records:
+        if r["qname"] != CP:
+            continue
+        ptrs = [f for f in r["fields"] if f["ty"].rstrip().endswith("*")]
+        if len(ptrs) != 1:
+            raise dtable.Undecidable("CountingPtr: the pointer field is not unique (%s)" % [f["name"] for f in r["fields"]])
+        names.add(ptrs[0]["name"])
+    if len(names) != 1:
+        raise dtable.Undecidable("CountingPtr: the pointer field is not unique (%s)" % sorted(names))
+    PTR_FIELD[0] = names.pop()
 
 
 class Bad(Exception):
@@ -48,9 +98,17 @@ class Ret(Exception):
         self.v = v
 
 
+class Brk(Exception):
+    pass
+
+
+class Cont(Exception):
+    pass
+
+
 class Interp:
     """abstract interpreter for the CountingPtr members: pointer values are drawn from a finite set,
-    counters are small integers, handles are named cells"""
+    counters are small integers, handles are named cells.  Whatever it does not model exactly is Undecidable."""
 
     def __init__(self, tu, st):
         self.tu = tu
@@ -58,63 +116,93 @@ class Interp:
         self.depth = 0
         self.steps = 0
 
+    def und(self, fr, n, what):
+        return dtable.Undecidable("%s: %s: %s" % (fr.fn.nloc(n), what, dtable.describe(n)))
+
     # -------------------------------------------------------------- values
     def lval(self, n, fr):
-        """location: ('ptr', handle) | ('handle', name) | ('var', did)"""
-        n = strip_casts(n)
+        """location: ('ptr', handle) | ('handle', name) | ('var', did, frame) | ('handleptr', name)"""
+        n = sc(n)
         k = n["k"]
         if k == "This":
             return ("handleptr", fr.this)
-        if k == "MemberExpr" and n["member"] == "ptr_":
-            b = self.handle_of(kids(n)[0], fr)
-            return ("ptr", b)
+        if k == "MemberExpr" and n["member"] == PTR_FIELD[0]:
+            return ("ptr", self.handle_of_base(n, fr))
         if k == "DeclRefExpr":
             v = fr.env.get(n["ref"]["id"])
             if isinstance(v, tuple) and v[0] == "handle":
                 return v
-            return ("var", n["ref"]["id"])
+            if isinstance(v, tuple) and v[0] == "ref":
+                return v[1]
+            return ("var", n["ref"]["id"], fr)
         if k == "UnaryOperator" and n["op"] == "*":
             v = self.rval(kids(n)[0], fr)
             if isinstance(v, tuple) and v[0] == "addr":
                 return ("handle", v[1])
+            if isinstance(v, tuple) and v[0] == "addrof":
+                return v[1]
             return ("obj", v)
-        if "callee" in n and n["callee"]["name"] in ("move", "forward"):
+        if "callee" in n and n["callee"]["name"] in ("move", "forward", "as_const") and "std" in n["callee"]["qname"]:
             return self.lval(kids(n)[-1], fr)
         if "callee" in n:
             v = self.rval(n, fr)
             if isinstance(v, tuple) and v[0] == "handle":
                 return v
-        raise dtable.Undecidable("%s: lvalue not understood: %s" % (fr.fn.nloc(n), dtable.describe(n)))
+        raise self.und(fr, n, "lvalue not understood")
+
+    def handle_of_base(self, m, fr):
+        """the handle whose pointer field the MemberExpr m names (h.ptr_ / p->ptr_ / this->ptr_)"""
+        b = kids(m)[0]
+        if m.get("arrow"):
+            pv = self.rval(b, fr)
+            if isinstance(pv, tuple) and pv[0] == "addr" and pv[1] is not None:
+                return pv[1]
+            raise self.und(fr, m, "not a pointer to a CountingPtr handle")
+        return self.handle_of(b, fr)
 
     def handle_of(self, n, fr):
-        n = strip_casts(n)
+        n = sc(n)
         if n["k"] == "This":
             return fr.this
         lv = self.lval(n, fr)
         if lv[0] == "handle":
             return lv[1]
-        raise dtable.Undecidable("%s: not a CountingPtr handle: %s" % (fr.fn.nloc(n), dtable.describe(n)))
+        raise self.und(fr, n, "not a CountingPtr handle")
+
+    def load(self, lv, fr, n):
+        if lv[0] == "ptr":
+            return self.st.h[lv[1]]
+        if lv[0] == "var":
+            v = lv[2].env.get(lv[1])
+            if v is None:
+                raise self.und(fr, n, "variable read before it is set")
+            return v
+        if lv[0] == "handle":
+            return lv
+        raise self.und(fr, n, "location not understood")
 
     def rval(self, n, fr):
         self.steps += 1
         if self.steps > 5000:
             raise dtable.Undecidable("abstract run too long in %s" % fr.fn.full)
-        n = strip_casts(n)
+        n = sc(n)
         k = n["k"]
         st = self.st
-        if k == "NullPtr":
+        if k == "NullPtr" or k == "GNUNullExpr":
             return NULL
         c = const_int(n)
         if c is not None and k in ("IntegerLiteral", "CXXBoolLiteralExpr"):
             return c
         if k == "This":
             return ("addr", fr.this)
-        if k == "MemberExpr" and n["member"] == "ptr_":
-            return st.h[self.handle_of(kids(n)[0], fr)]
+        if k == "MemberExpr" and n["member"] == PTR_FIELD[0]:
+            return st.h[self.handle_of_base(n, fr)]
         if k == "DeclRefExpr":
             v = fr.env.get(n["ref"]["id"])
             if v is None:
                 raise dtable.Undecidable("%s: unknown variable %s" % (fr.fn.nloc(n), n["ref"]["name"]))
+            if isinstance(v, tuple) and v[0] == "ref":
+                return self.load(v[1], fr, n)
             return v
         if k == "UnaryOperator":
             op = n["op"]
@@ -124,10 +212,14 @@ class Interp:
                 lv = self.lval(kids(n)[0], fr)
                 if lv[0] == "handle":
                     return ("addr", lv[1])
+                if lv[0] in ("ptr", "var"):
+                    return ("addrof", lv)
             if op == "*":
                 v = self.rval(kids(n)[0], fr)
                 if isinstance(v, tuple) and v[0] == "addr":
                     return ("handle", v[1])
+                if isinstance(v, tuple) and v[0] == "addrof":
+                    return self.load(v[1], fr, n)
                 return ("objref", v)
         if k == "BinaryOperator":
             op = n["op"]
@@ -138,11 +230,23 @@ class Interp:
                 return a or self.truth(kids(n)[1], fr)
             if op in ("==", "!="):
                 a, b = self.rval(kids(n)[0], fr), self.rval(kids(n)[1], fr)
-                if a == 0:
+                for x in (a, b):
+                    if x == UNINIT:
+                        raise self.und(fr, n, "comparison of an uninitialised pointer")
+                    if x is None or (isinstance(x, tuple) and x[0] not in ("addr", "handle")):
+                        raise self.und(fr, n, "comparison operand not understood")
+                if not isinstance(a, bool) and a == 0:
                     a = NULL
-                if b == 0:
+                if not isinstance(b, bool) and b == 0:
                     b = NULL
+                if isinstance(a, bool) != isinstance(b, bool):
+                    a, b = self.as_bool(a, fr, n), self.as_bool(b, fr, n)
                 return (a == b) if op == "==" else (a != b)
+            if op in ("<", "<=", ">", ">="):
+                a, b = self.rval(kids(n)[0], fr), self.rval(kids(n)[1], fr)
+                if any(isinstance(x, bool) or not isinstance(x, int) for x in (a, b)):
+                    raise self.und(fr, n, "ordering comparison of non-integers")     # pointer order is not modelled
+                return {"<": a < b, "<=": a <= b, ">": a > b, ">=": a >= b}[op]
             if op == "=":
                 v = self.rval(kids(n)[1], fr)
                 self.assign(self.lval(kids(n)[0], fr), v, fr, n)
@@ -154,64 +258,87 @@ class Interp:
             c0, a, b = kids(n)
             return self.rval(a if self.truth(c0, fr) else b, fr)
         if k == "CXXNewExpr":
-            for c_ in kids(n):
-                pass      # constructor arguments have no effect on counts (RC-COPY-ZERO)
+            if n.get("array") or n.get("placement"):
+                raise self.und(fr, n, "array / placement new is not modelled")
+            # constructor arguments have no effect on counts (RC-COPY-ZERO): a new pointee starts unowned
             return st.new_obj()
         if k == "CXXDeleteExpr":
             v = self.rval(kids(n)[0], fr)
-            if v != NULL:
-                st.deleted[v] = st.deleted.get(v, 0) + 1
-                if st.count.get(v, 0) != 0:
-                    raise Bad("delete-live", "object deleted while its reference count is %d" % st.count[v])
+            if v == NULL:
+                return None
+            if not isinstance(v, str) or v == UNINIT:
+                raise self.und(fr, n, "deleted pointer not understood")
+            st.deleted[v] = st.deleted.get(v, 0) + 1
+            if st.count.get(v, 0) != 0:
+                raise Bad("delete-live", "object deleted while its reference count is %d" % st.count[v])
             return None
-        if k in ("CXXConstructExpr", "CXXTemporaryObjectExpr") and n["callee"].get("record") == CP:
+        if k in CONSTRUCTS and n["callee"].get("record") == CP:
             st.ntemp += 1
             name = "tmp%d" % st.ntemp
             self.construct(name, n, fr)
             fr.temps.append(name)
             return ("handle", name)
-        if k in ("CXXConstructExpr", "CXXTemporaryObjectExpr"):
+        if k in CONSTRUCTS:
             # deleter / other value objects
             return ("value", n["callee"].get("record"))
+        if k in ("CXXScalarValueInitExpr", "ImplicitValueInitExpr") or (k == "InitListExpr" and not kids(n)):
+            ty = n.get("ty") or ""
+            if ty == "void":
+                return None
+            if ty.rstrip().endswith("*"):
+                return NULL
+            if ty in ("bool", "int", "unsigned int", "long", "unsigned long", "size_t", "std::size_t"):
+                return 0
+            raise self.und(fr, n, "value initialisation of this type is not modelled")
+        if k == "InitListExpr" and len(kids(n)) == 1 and not is_cp_ty(n.get("ty")):
+            return self.rval(kids(n)[0], fr)
         if "callee" in n:
             return self.call(n, fr)
-        raise dtable.Undecidable("%s: expression not understood: %s" % (fr.fn.nloc(n), dtable.describe(n)))
+        raise self.und(fr, n, "expression not understood")
 
-    def truth(self, n, fr):
-        v = self.rval(n, fr)
+    def as_bool(self, v, fr, n):
         if isinstance(v, bool):
             return v
         if isinstance(v, int):
             return v != 0
         if v == NULL:
             return False
+        if v == UNINIT:
+            raise self.und(fr, n, "truth value of an uninitialised pointer")
         if isinstance(v, str):
             return True
-        raise dtable.Undecidable("%s: condition value not understood: %s" % (fr.fn.nloc(n), dtable.describe(n)))
+        raise self.und(fr, n, "condition value not understood")
+
+    def truth(self, n, fr):
+        return self.as_bool(self.rval(n, fr), fr, n)
 
     def assign(self, lv, v, fr, n):
         if lv[0] == "ptr":
-            self.st.h[lv[1]] = v
+            if isinstance(v, tuple) or isinstance(v, bool) or v is None:
+                raise self.und(fr, n, "value stored into the pointer field not understood")
+            self.st.h[lv[1]] = NULL if v == 0 else v
         elif lv[0] == "var":
-            fr.env[lv[1]] = v
+            lv[2].env[lv[1]] = v
         else:
             raise dtable.Undecidable("%s: assignment target not understood" % fr.fn.nloc(n))
 
     # -------------------------------------------------------------- calls
     def construct(self, name, n, fr):
         ctor = self.tu.by_did.get(n["callee"]["did"])
-        if ctor is None:
+        if ctor is None or ctor.body is None:
             raise dtable.Undecidable("%s: constructor body not in IR: %s" % (fr.fn.nloc(n), n["callee"]["qname"]))
-        args = [self.argval(a, fr) for a in kids(n)]
-        self.st.h[name] = "uninit"
+        args = self.bind_args(ctor, kids(n), fr, n)
+        self.st.h[name] = UNINIT
         self.st.alive_handles.add(name)
         self.invoke(ctor, name, args, fr)
+        if self.st.h.get(name) == UNINIT:
+            raise Bad("uninit", "constructor leaves the pointer uninitialised")
 
-    def argval(self, a, fr):
-        a0 = strip_casts(a)
+    def argval(self, a, fr, pty=None):
+        a0 = sc(a)
         ty = a0.get("ty", "")
-        if ty.startswith("tlx::CountingPtr<") or ty.startswith("const tlx::CountingPtr<"):
-            lv = self.lval(a0, fr) if a0["k"] not in ("CXXConstructExpr", "CXXTemporaryObjectExpr", "CXXFunctionalCastExpr") else None
+        if is_cp_ty(ty):
+            lv = self.lval(a0, fr) if a0["k"] not in CONSTRUCTS else None
             if lv is None:
                 v = self.rval(a0, fr)
                 return v
@@ -219,27 +346,61 @@ class Interp:
                 return lv
             if lv[0] == "handleptr":
                 return ("handle", lv[1])
+        if pty is not None and is_ref_ty(pty) and not is_cp_ty(pty):
+            # a reference parameter aliases the argument
+            if a0["k"] in ("MemberExpr", "DeclRefExpr") or (a0["k"] == "UnaryOperator" and a0.get("op") == "*"):
+                lv = self.lval(a0, fr)
+                if lv[0] in ("ptr", "var"):
+                    return ("ref", lv)
+                if lv[0] == "handle":
+                    return lv
+                raise self.und(fr, a0, "reference argument not understood")
         return self.rval(a, fr)
+
+    def bind_args(self, callee, argn, fr, n):
+        if len(argn) != len(callee.params):
+            raise self.und(fr, n, "arity mismatch calling %s" % callee.full)
+        return [self.argval(a, fr, p["ty"]) for a, p in zip(argn, callee.params)]
 
     def invoke(self, fn, this, args, caller):
         self.depth += 1
-        if self.depth > 8:
-            raise dtable.Undecidable("inlining bound exceeded at %s" % fn.full)
-        fr = Frame(fn, this)
-        if len(args) != len(fn.params):
-            raise dtable.Undecidable("arity mismatch calling %s" % fn.full)
-        for p, v in zip(fn.params, args):
-            fr.env[p["did"]] = v
         try:
+            if self.depth > 8:
+                raise dtable.Undecidable("inlining bound exceeded at %s" % fn.full)
+            if fn.body is None:
+                raise dtable.Undecidable("body of %s not in IR" % fn.full)
+            fr = Frame(fn, this)
+            if len(args) != len(fn.params):
+                raise dtable.Undecidable("arity mismatch calling %s" % fn.full)
+            for p, v in zip(fn.params, args):
+                fr.env[p["did"]] = v
             for i in fn.inits:
-                if i.get("field") == "ptr_":
-                    self.st.h[this] = self.rval(i["e"], fr)
+                e = i.get("e")
+                if i.get("delegating"):
+                    e0 = sc(e)
+                    tgt = self.tu.by_did.get(e0["callee"]["did"]) if e0 is not None and e0["k"] in CONSTRUCTS else None
+                    if tgt is None or tgt.record != fn.record:
+                        raise dtable.Undecidable("%s: delegating constructor not understood" % fn.loc)
+                    self.invoke(tgt, this, self.bind_args(tgt, kids(e0), fr, e0), fr)
                     self.flush_temps(fr)
+                elif i.get("field") == PTR_FIELD[0] and fn.record == CP:
+                    if e is not None and e["k"] == "CXXDefaultInitExpr" and kids(e):
+                        e = kids(e)[0]           # the default member initialiser (emitted by the extractor as the child)
+                    if e is None or e["k"] == "CXXDefaultInitExpr":
+                        raise dtable.Undecidable("%s: default member initialiser of %s is not in the IR" % (fn.loc, PTR_FIELD[0]))
+                    v = self.rval(e, fr)
+                    self.assign(("ptr", this), v, fr, e)
+                    self.flush_temps(fr)
+                elif fn.record == CP:
+                    raise dtable.Undecidable("%s: initialiser of %s not understood" % (fn.loc, i.get("field") or i.get("base")))
+                # initialisers of other records (deleters, ...) carry no pointer state
             try:
                 self.stmt(fn.body, fr)
                 r = None
             except Ret as e:
                 r = e.v
+            except (Brk, Cont):
+                raise dtable.Undecidable("%s: break/continue outside a loop" % fn.loc)
             return r
         finally:
             self.depth -= 1
@@ -249,29 +410,42 @@ class Interp:
         name = c["name"]
         st = self.st
         args = kids(n)
-        if name in ("move", "forward", "addressof") and "std" in c["qname"]:
+        std = c["qname"].startswith("std::")
+        if name in ("move", "forward", "as_const") and std:
             lv = self.lval(args[-1], fr)
-            return lv if lv[0] == "handle" else self.rval(args[-1], fr)
-        if name == "swap" and "std" in c["qname"] and len(args) == 2:
+            return lv if lv[0] == "handle" else self.load(lv, fr, n)
+        if name == "addressof" and std:
+            lv = self.lval(args[-1], fr)
+            if lv[0] == "handle":
+                return ("addr", lv[1])
+            if lv[0] in ("ptr", "var"):
+                return ("addrof", lv)
+            raise self.und(fr, n, "std::addressof operand not understood")
+        if name == "swap" and std and len(args) == 2:
             la, lb = self.lval(args[0], fr), self.lval(args[1], fr)
-            if la[0] == "ptr" and lb[0] == "ptr":
-                st.h[la[1]], st.h[lb[1]] = st.h[lb[1]], st.h[la[1]]
+            if la[0] in ("ptr", "var") and lb[0] in ("ptr", "var"):
+                va, vb = self.load(la, fr, n), self.load(lb, fr, n)
+                self.assign(la, vb, fr, n)
+                self.assign(lb, va, fr, n)
                 return None
             raise dtable.Undecidable("%s: std::swap on unexpected operands" % fr.fn.nloc(n))
-        if name == "exchange" and "std" in c["qname"] and len(args) == 2:
+        if name == "exchange" and std and len(args) == 2:
             la = self.lval(args[0], fr)
-            v = self.rval(args[1], fr)
-            if la[0] == "ptr":
-                old = st.h[la[1]]
-                st.h[la[1]] = v
+            if la[0] in ("ptr", "var"):
+                old = self.load(la, fr, n)
+                v = self.rval(args[1], fr)
+                self.assign(la, v, fr, n)
                 return old
+            raise dtable.Undecidable("%s: std::exchange on unexpected operands" % fr.fn.nloc(n))
         # pointee protocol
         if n.get("member_call") and c.get("record") != CP and name in ("inc_reference", "dec_reference", "unique", "reference_count"):
             o = self.rval(args[0], fr)
             if isinstance(o, tuple) and o[0] == "objref":
                 o = o[1]
-            if o == NULL or not isinstance(o, str):
+            if o == NULL:
                 raise Bad("null-deref", "%s() is called through a null pointer" % name)
+            if not isinstance(o, str) or o == UNINIT or o not in st.count:
+                raise self.und(fr, n, "pointee of the call not understood")
             if st.deleted.get(o, 0) > 0:
                 raise Bad("use-after-delete", "%s() on an object that was already destroyed" % name)
             if name == "inc_reference":
@@ -290,19 +464,30 @@ class Interp:
             if n.get("member_call") or (n["k"] == "CXXOperatorCallExpr" and callee.record):
                 objn = args[0]
                 if callee.record == CP:
-                    this = self.handle_of(objn, fr)
+                    o0 = sc(objn)
+                    if n.get("arrow") and o0["k"] != "This":
+                        pv = self.rval(objn, fr)
+                        if not (isinstance(pv, tuple) and pv[0] == "addr"):
+                            raise self.und(fr, n, "object of the member call not understood")
+                        this = pv[1]
+                    else:
+                        this = self.handle_of(objn, fr)
                 else:
                     self.rval(objn, fr)
                     this = None
-                argv = [self.argval(a, fr) for a in args[1:]]
+                argv = self.bind_args(callee, args[1:], fr, n)
             else:
                 this = None
-                argv = [self.argval(a, fr) for a in args]
+                argv = self.bind_args(callee, args, fr, n)
             r = self.invoke(callee, this, argv, fr)
-            if callee.kind == "operator" and callee.d.get("op") == "=" and callee.record == CP:
-                return ("handle", this)
+            rty = callee.d.get("ret", "")
+            if is_cp_ty(rty) and not is_ref_ty(rty):
+                # a handle returned by value is a temporary of the calling full-expression
+                if not (isinstance(r, tuple) and r[0] == "handle"):
+                    raise self.und(fr, n, "returned handle not understood")
+                fr.temps.append(r[1])
             return r
-        raise dtable.Undecidable("%s: call not understood: %s" % (fr.fn.nloc(n), dtable.describe(n)))
+        raise self.und(fr, n, "call not understood")
 
     # -------------------------------------------------------------- statements
     def flush_temps(self, fr):
@@ -318,6 +503,84 @@ class Interp:
         self.st.alive_handles.discard(name)
         self.st.h.pop(name, None)
 
+    def declare(self, v, fr):
+        if v is None:
+            return
+        if v["k"] in ("TypedefDecl", "TypeAliasDecl", "StaticAssertDecl", "UsingDecl", "UsingDirectiveDecl", "EmptyDecl"):
+            return
+        if v["k"] != "VarDecl":
+            raise self.und(fr, v, "declaration not understood")
+        if not kids(v) or kids(v)[0] is None:
+            if is_cp_ty(v.get("ty")):
+                raise self.und(fr, v, "handle declared without initialiser")
+            return                      # set later by an assignment; reading it first is Undecidable
+        init = kids(v)[0]
+        ty = v.get("ty") or ""
+        if (v.get("isref") or is_ref_ty(ty)) and not is_cp_ty(ty):
+            i0 = sc(init)
+            if i0["k"] in ("MemberExpr", "DeclRefExpr") or (i0["k"] == "UnaryOperator" and i0.get("op") == "*"):
+                lv = self.lval(i0, fr)          # a reference local aliases what it is bound to
+                if lv[0] in ("ptr", "var"):
+                    fr.env[v["did"]] = ("ref", lv)
+                    return
+                if lv[0] == "obj" and isinstance(lv[1], str) and lv[1] not in (NULL, UNINIT):
+                    fr.env[v["did"]] = ("objref", lv[1])          # a reference to the pointee itself
+                    return
+                if lv[0] != "handle":
+                    raise self.und(fr, v, "reference binding not understood")
+        val = self.rval(init, fr)
+        if isinstance(val, tuple) and val[0] == "handle" and val[1] in fr.temps and is_cp_ty(ty) and not is_ref_ty(ty):
+            fr.temps.remove(val[1])          # a named handle lives to the end of its scope
+            fr.locals.append(val[1])
+        elif is_cp_ty(ty) and not is_ref_ty(ty):
+            raise self.und(fr, v, "initialisation of a named handle not understood")
+        elif isinstance(val, tuple) and val[0] == "handle" and val[1] in fr.temps:
+            fr.temps.remove(val[1])          # a temporary bound to a reference lives as long as the reference
+            fr.locals.append(val[1])
+        fr.env[v["did"]] = val
+
+    def cond(self, s, fr):
+        """evaluates the condition of an if/while/for including its init statement / condition variable"""
+        if isinstance(s.get("init"), dict):
+            self.stmt(s["init"], fr)
+        if isinstance(s.get("condvar"), dict):
+            self.declare(s["condvar"], fr)
+            self.flush_temps(fr)
+
+    def loop(self, s, fr):
+        k = s["k"]
+        if "init" in s or "condvar" in s:
+            raise self.und(fr, s, "loop with a condition variable")
+        init, cnd, inc, body = match.loop_parts(s)
+        mark = len(fr.locals)
+        try:
+            if init is not None:
+                self.stmt(init, fr)
+            first = True
+            while True:
+                if not (k == "DoStmt" and first):
+                    if cnd is not None:
+                        v = self.truth(cnd, fr)
+                        self.flush_temps(fr)
+                        if not v:
+                            break
+                first = False
+                try:
+                    self.stmt(body, fr)
+                except Brk:
+                    break
+                except Cont:
+                    pass
+                if inc is not None:
+                    self.rval(inc, fr)
+                    self.flush_temps(fr)
+                self.steps += 1
+                if self.steps > 5000:
+                    raise dtable.Undecidable("abstract run too long in %s" % fr.fn.full)
+        finally:
+            while len(fr.locals) > mark:
+                self.destroy_handle(fr.locals.pop(), fr)
+
     def stmt(self, s, fr):
         if s is None:
             return
@@ -332,42 +595,58 @@ class Interp:
                     self.destroy_handle(fr.locals.pop(), fr)
             return
         if k == "IfStmt":
-            c, t, e = kids(s)
-            v = self.truth(c, fr)
-            self.flush_temps(fr)
-            self.stmt(t if v else e, fr)
+            mark = len(fr.locals)
+            try:
+                self.cond(s, fr)
+                c, t, e = (kids(s) + [None, None])[:3]
+                v = self.truth(c, fr)
+                self.flush_temps(fr)
+                self.stmt(t if v else e, fr)
+            finally:
+                while len(fr.locals) > mark:
+                    self.destroy_handle(fr.locals.pop(), fr)
             return
+        if k in ("WhileStmt", "ForStmt", "DoStmt"):
+            self.loop(s, fr)
+            return
+        if k == "BreakStmt":
+            raise Brk()
+        if k == "ContinueStmt":
+            raise Cont()
         if k == "ReturnStmt":
             v = None
-            if kids(s):
-                e = strip_casts(kids(s)[0])
-                if e["k"] in ("CXXConstructExpr", "CXXTemporaryObjectExpr", "CXXFunctionalCastExpr") and \
-                        e.get("ty", "").startswith("tlx::CountingPtr<"):
-                    inner = e
-                    while inner["k"] == "CXXFunctionalCastExpr":
-                        inner = strip_casts(kids(inner)[0])
-                    self.st.ntemp += 1
-                    self.construct("ret", inner, fr)
-                    v = ("handle", "ret")
+            if kids(s) and kids(s)[0] is not None:
+                e = sc(kids(s)[0])
+                rty = fr.fn.d.get("ret", "")
+                if is_cp_ty(rty) and not is_ref_ty(rty):
+                    # the returned handle is an object of its own: constructed here, or the callee's elided temporary
+                    if e["k"] in CONSTRUCTS and e["callee"].get("record") == CP:
+                        self.st.ntemp += 1
+                        name = "ret%d" % self.st.ntemp
+                        self.construct(name, e, fr)
+                        v = ("handle", name)
+                    else:
+                        v = self.rval(e, fr)
+                        if isinstance(v, tuple) and v[0] == "handle" and v[1] in fr.temps:
+                            fr.temps.remove(v[1])
+                        else:
+                            raise self.und(fr, s, "returned handle not understood")
                 else:
                     v = self.rval(kids(s)[0], fr)
             self.flush_temps(fr)
             raise Ret(v)
         if k == "NullStmt":
             return
-        if k in ("CXXStaticCastExpr", "CStyleCastExpr") and s.get("ty") == "void":
-            return
-        if k == "ConditionalOperator" and any(c.get("callee", {}).get("noreturn") for c in ir.walk(s) if "callee" in c):
+        if k in ("CXXStaticCastExpr", "CStyleCastExpr", "CXXFunctionalCastExpr") and s.get("ty") == "void" and \
+                not any("callee" in x or x["k"] in ("BinaryOperator", "UnaryOperator", "CompoundAssignOperator", "CXXNewExpr", "CXXDeleteExpr")
+                        for x in ir.walk(s)):
+            return                      # (void)x;
+        if is_assert(s):
             return                      # assert()
         if k == "DeclStmt":
             for v in kids(s):
-                if kids(v):
-                    val = self.rval(kids(v)[0], fr)
-                    if isinstance(val, tuple) and val[0] == "handle" and val[1] in fr.temps and (v.get("ty") or "").startswith("tlx::CountingPtr<"):
-                        fr.temps.remove(val[1])          # a named handle lives to the end of its scope
-                        fr.locals.append(val[1])
-                    fr.env[v["did"]] = val
-            self.flush_temps(fr)
+                self.declare(v, fr)
+                self.flush_temps(fr)
             return
         self.rval(s, fr)
         self.flush_temps(fr)
@@ -400,6 +679,11 @@ def scenarios(fn):
 
 def run_scenario(tu, fn, sc):
     tp, ok, ov, ea, eb = sc
+    for p in fn.params[:1]:
+        if is_cp_ty(p["ty"]) and not is_ref_ty(p["ty"]):
+            raise dtable.Undecidable("%s: handle parameter passed by value (the caller's copy is not part of the member)" % fn.loc)
+    if len(fn.params) > 1:
+        raise dtable.Undecidable("%s: member with %d parameters is not modelled" % (fn.loc, len(fn.params)))
     st = Store()
     for o in ("A", "B"):
         st.count[o] = 0
@@ -428,18 +712,20 @@ def run_scenario(tu, fn, sc):
     for o in ("A", "B"):
         st.count[o] = pre_handles[o]
     if fn.kind == "ctor":
-        st.h["this"] = "uninit"
+        st.h["this"] = UNINIT
         st.alive_handles.add("this")
     it = Interp(tu, st)
     fr0 = Frame(fn, "this")
     it.invoke(fn, "this", args, fr0)
+    if fn.kind == "ctor" and st.h.get("this") == UNINIT:
+        # every initialiser and statement of the constructor was understood and none of them sets the pointer
+        raise Bad("uninit", "constructor leaves the pointer uninitialised")
     if fn.kind == "dtor":
         st.alive_handles.discard("this")
         st.h.pop("this", None)
     # post-state accounting
     for o in list(st.count):
         nh = ext.get(o, 0) + sum(1 for h in st.alive_handles if st.h.get(h) == o)
-        was_owned = pre_handles.get(o, 0) > 0 or o.startswith("NEW") and st.count[o] > 0 or st.deleted.get(o, 0) > 0
         if st.deleted.get(o, 0) > 1:
             raise Bad("double-delete", "object %s is destroyed %d times" % (o, st.deleted[o]))
         if st.deleted.get(o, 0) == 1:
@@ -448,10 +734,9 @@ def run_scenario(tu, fn, sc):
             continue
         if st.count[o] != nh:
             raise Bad("count-mismatch", "reference count of %s is %d but %d handle(s) point to it" % (o, st.count[o], nh))
-        if nh == 0 and (pre_handles.get(o, 0) > 0 or (o.startswith("NEW"))) :
+        if nh == 0 and (pre_handles.get(o, 0) > 0 or o.startswith("NEW")):
             # last owner gone (or a fresh object never adopted) but not destroyed
-            if pre_handles.get(o, 0) > 0 or o.startswith("NEW"):
-                raise Bad("leak", "object %s lost its last handle but was not destroyed" % o)
+            raise Bad("leak", "object %s lost its last handle but was not destroyed" % o)
     return st
 
 
@@ -466,6 +751,7 @@ def member_label(fn):
 
 
 def check_members(ck, tu):
+    resolve_ptr_field(tu)
     n = 0
     for fn in tu.find(record=CP):
         if fn.rtargs[:1] != ["Base"]:
@@ -481,7 +767,7 @@ def check_members(ck, tu):
                     # extra role obligations
                     tp, ok, ov, ea, eb = sc
                     if fn.name == "operator=" or (fn.kind == "ctor" and ok == "handle"):
-                        src_ptr = tp if ok == "self" else ov
+                        src_ptr = tp if ok == "self" else NULL if ok == "nullptr" else ov
                         if st.h.get("this") != src_ptr:
                             raise Bad("wrong-target", "after the operation the handle points to %s instead of the source's object %s" % (st.h.get("this"), src_ptr))
                     if fn.kind == "ctor" and ok == "raw" and st.h.get("this") != ov:
@@ -518,10 +804,15 @@ def check_members(ck, tu):
         try:
             st = Store()
             it = Interp(tu, st)
-            it.invoke(fn, None, [], Frame(fn, None))
+            r = it.invoke(fn, None, [], Frame(fn, None))
+            if not (isinstance(r, tuple) and r[0] == "handle" and r[1] in st.h):
+                raise dtable.Undecidable("%s: value returned by make_counting not understood" % fn.loc)
             objs = [o for o in st.count if o.startswith("NEW")]
-            if len(objs) != 1 or st.count[objs[0]] != 1 or st.h.get("ret") != objs[0] or st.deleted[objs[0]]:
-                raise Bad("make", "make_counting does not return the single owner of the new object")
+            owners = [h for h in st.alive_handles if st.h.get(h) in objs]
+            if len(objs) != 1 or st.count[objs[0]] != 1 or st.h.get(r[1]) != objs[0] or st.deleted[objs[0]] or owners != [r[1]]:
+                raise Bad("make", "make_counting does not return the single owner of the new object (%s)" %
+                          "; ".join("%s: count %d, destroyed %d times, handles %s" %
+                                    (o, st.count[o], st.deleted[o], sorted(h for h in st.alive_handles if st.h.get(h) == o)) for o in objs))
             ck.ok("RC-CONSERVE", "make_counting", "new object owned by exactly the returned handle (count 1)")
         except Bad as b:
             ck.violation("RC-CONSERVE", fn.qname, "make:" + b.sig, b.msg, fn.loc)
@@ -542,33 +833,9 @@ def check_members(ck, tu):
 
 # ---------------------------------------------------------------------------------
 ORDERS = {0: "relaxed", 1: "consume", 2: "acquire", 3: "release", 4: "acq_rel", 5: "seq_cst"}
-
-
-def atomic_rmw(n):
-    """(kind, order) if n is an atomic read-modify-write on this->reference_count_"""
-    n = strip_casts(n)
-    if n is None or "callee" not in n:
-        return None
-    c = n["callee"]
-    if "atomic" not in c["qname"]:
-        return None
-    obj = kids(n)[0] if kids(n) else None
-    if match.this_field(obj) != COUNT_FIELD[0]:
-        return None
-    name = c["name"]
-    order = 5
-    if name in ("fetch_add", "fetch_sub"):
-        if len(kids(n)) >= 3 and kids(n)[2]["k"] != "DefaultArg":
-            o = const_int(kids(n)[2])
-            order = o if o is not None else None
-        return (name, order, const_int(kids(n)[1]))
-    if name in ("operator++", "operator--", "operator+=", "operator-="):
-        post = len(kids(n)) == 2 and name in ("operator++", "operator--")
-        return (name + ("(post)" if post else ""), 5, 1)
-    return None
-
-
 COUNT_FIELD = ["reference_count_"]       # the counter field of ReferenceCounter: its one integral data member, whatever its name
+INDET = "indeterminate"                  # a counter that no initialiser has given a value
+U64 = 1 << 64
 
 
 def resolve_count_field(tu):
@@ -580,135 +847,582 @@ def resolve_count_field(tu):
     return flds[0]
 
 
+class Val:
+    """an integer / boolean with its provenance: which atomic reads of the counter it was computed from"""
+
+    def __init__(self, v, src=frozenset()):
+        self.v, self.src = v, frozenset(src)
+
+
+class CRet(Exception):
+    def __init__(self, v):
+        self.v = v
+
+
+class CFrame:
+    def __init__(self, fn, this):
+        self.fn, self.this, self.env = fn, this, {}
+
+
+class CounterRun:
+    """concrete run of a ReferenceCounter member over small counter values.  Closed world: every expression that reaches
+    the counter field must be one of the std::atomic operations below, everything else is Undecidable.
+    trace: the atomic operations in execution order."""
+
+    def __init__(self, tu, cells):
+        self.tu = tu
+        self.cells = dict(cells)          # object name -> counter value | INDET
+        self.trace = []
+        self.pc = frozenset()             # provenance of the branch decisions taken so far
+        self.steps = 0
+        self.depth = 0
+
+    def und(self, fr, n, what):
+        return dtable.Undecidable("%s: %s: %s" % (fr.fn.nloc(n), what, dtable.describe(n)))
+
+    # ---------------------------------------------------------- the counter
+    def obj_of(self, b, fr):
+        """name of the ReferenceCounter object an expression denotes"""
+        b0 = sc(b)
+        if b0["k"] == "This":
+            return fr.this
+        if b0["k"] == "UnaryOperator" and b0.get("op") == "*" and sc(kids(b0)[0])["k"] == "This":
+            return fr.this
+        if b0["k"] == "DeclRefExpr":
+            v = fr.env.get(b0["ref"]["id"])
+            if isinstance(v, tuple) and v[0] == "obj":
+                return v[1]
+        raise self.und(fr, b, "ReferenceCounter object not understood")
+
+    def cell_of(self, n, fr):
+        """the object whose counter field n names, or None"""
+        n = sc(n)
+        if n is None:
+            return None
+        if n["k"] == "MemberExpr" and n["member"] == COUNT_FIELD[0] and kids(n):
+            return self.obj_of(kids(n)[0], fr)
+        if n["k"] == "DeclRefExpr":
+            v = fr.env.get(n["ref"]["id"])
+            if isinstance(v, tuple) and v[0] == "cell":
+                return v[1]
+        return None
+
+    def order(self, args, i, fr, n):
+        a = [x for x in args if x is not None and x["k"] != "DefaultArg"]
+        if len(a) <= i:
+            return 5
+        o = const_int(a[i])
+        if o is None or o not in ORDERS:
+            raise self.und(fr, n, "memory order is not a constant")
+        return o
+
+    def cur(self, cell, fr, n):
+        v = self.cells.get(cell)
+        if not isinstance(v, int):
+            raise self.und(fr, n, "counter is read before it has a value")
+        return v
+
+    def atomic(self, n, cell, fr):
+        c = n["callee"]
+        name, op = c["name"], n.get("op")
+        args = kids(n)[1:]
+        real = [x for x in args if x is not None and x["k"] != "DefaultArg"]
+        idx = len(self.trace)
+
+        def ev(kind, before, after, order, what):
+            self.trace.append(dict(kind=kind, cell=cell, before=before, after=after, order=order, what=what, idx=idx))
+        if op is None and name.startswith("operator ") and not real:          # conversion to the value type
+            v = self.cur(cell, fr, n)
+            ev("load", v, v, 5, "implicit load")
+            return Val(v, [("load", idx)])
+        if name == "load" and op is None:
+            v = self.cur(cell, fr, n)
+            ev("load", v, v, self.order(args, 0, fr, n), "load()")
+            return Val(v, [("load", idx)])
+        if (name == "store" and op is None and real) or (op == "=" and len(real) == 1):
+            x = self.value(real[0], fr)
+            ev("store", self.cells.get(cell), x.v, self.order(args, 1, fr, n) if name == "store" else 5, "store")
+            self.cells[cell] = int(x.v) % U64
+            return x if op == "=" else None
+        if name in ("fetch_add", "fetch_sub") and real:
+            amt = self.value(real[0], fr).v
+            old = self.cur(cell, fr, n)
+            new = (old + amt if name == "fetch_add" else old - amt) % U64
+            ev("rmw", old, new, self.order(args, 1, fr, n), "%s(%d)" % (name, amt))
+            self.cells[cell] = new
+            return Val(old, [("rmw", idx)])
+        if op in ("++", "--") and name in ("operator++", "operator--"):
+            old = self.cur(cell, fr, n)
+            new = (old + (1 if op == "++" else -1)) % U64
+            post = len(kids(n)) == 2
+            ev("rmw", old, new, 5, "%s%s" % (op, " (postfix)" if post else ""))
+            self.cells[cell] = new
+            return Val(old if post else new, [("rmw", idx)])
+        if op in ("+=", "-=") and len(real) == 1:
+            amt = self.value(real[0], fr).v
+            old = self.cur(cell, fr, n)
+            new = (old + amt if op == "+=" else old - amt) % U64
+            ev("rmw", old, new, 5, "%s %d" % (op, amt))
+            self.cells[cell] = new
+            return Val(new, [("rmw", idx)])
+        if name == "exchange" and op is None and real:
+            x = self.value(real[0], fr)
+            old = self.cur(cell, fr, n)
+            ev("rmw", old, int(x.v) % U64, self.order(args, 1, fr, n), "exchange(%d)" % x.v)
+            self.cells[cell] = int(x.v) % U64
+            return Val(old, [("rmw", idx)])
+        raise self.und(fr, n, "atomic operation on the counter is not modelled")
+
+    # ---------------------------------------------------------- expressions
+    def value(self, n, fr):
+        v = self.expr(n, fr)
+        if not isinstance(v, Val):
+            raise self.und(fr, n, "value not understood")
+        return v
+
+    def expr(self, n, fr):
+        self.steps += 1
+        if self.steps > 4000:
+            raise dtable.Undecidable("run of %s too long" % fr.fn.full)
+        n0 = n
+        n = sc(n)
+        if n is None:
+            raise dtable.Undecidable("%s: empty expression" % fr.fn.loc)
+        k = n["k"]
+        c = const_int(n0)
+        if c is None:
+            c = const_int(n)
+        if c is not None and not any("callee" in x for x in ir.walk(n)):
+            return Val(c)
+        if k == "This":
+            return ("objptr", fr.this)
+        if k == "DeclRefExpr":
+            v = fr.env.get(n["ref"]["id"])
+            if v is None:
+                raise self.und(fr, n, "unknown variable")
+            if isinstance(v, tuple) and v[0] == "local":
+                v = v[1].env.get(v[2])
+                if v is None:
+                    raise self.und(fr, n, "variable read before it is set")
+            return v
+        if k == "MemberExpr":
+            cell = self.cell_of(n, fr)
+            if cell is not None:
+                return ("cell", cell)
+            raise self.und(fr, n, "member not understood")
+        if "callee" in n:
+            return self.call(n, fr)
+        if k == "UnaryOperator":
+            op = n["op"]
+            if op == "*":
+                v = self.expr(kids(n)[0], fr)
+                if isinstance(v, tuple) and v[0] == "objptr":
+                    return ("obj", v[1])
+                raise self.und(fr, n, "dereference not understood")
+            if op in ("++", "--"):
+                did, f2 = self.local_target(kids(n)[0], fr, n)
+                old = f2.env.get(did)
+                if not isinstance(old, Val):
+                    raise self.und(fr, n, "operand not understood")
+                new = Val(self.wrap(old.v + (1 if op == "++" else -1), n), old.src)
+                f2.env[did] = new
+                return old if n.get("postfix") else new
+            x = self.value(kids(n)[0], fr)
+            if op == "!":
+                return Val(not x.v, x.src)
+            if op == "-":
+                return Val(self.wrap(-x.v, n), x.src)
+            if op == "+":
+                return x
+            raise self.und(fr, n, "operator not modelled")
+        if k in ("BinaryOperator", "CompoundAssignOperator"):
+            op = n["op"]
+            l, r = kids(n)
+            if op == "&&" or op == "||":
+                a = self.value(l, fr)
+                if bool(a.v) == (op == "||"):
+                    return Val(op == "||", a.src)
+                b = self.value(r, fr)
+                return Val(bool(b.v), a.src | b.src)
+            if op == ",":
+                self.expr(l, fr)
+                return self.expr(r, fr)
+            if op == "=":
+                x = self.value(r, fr)
+                did, f2 = self.local_target(l, fr, n)
+                f2.env[did] = x
+                return x
+            if op.endswith("=") and op[:-1] in ("+", "-", "*") and k == "CompoundAssignOperator":
+                x = self.value(r, fr)
+                did, f2 = self.local_target(l, fr, n)
+                old = f2.env.get(did)
+                if not isinstance(old, Val):
+                    raise self.und(fr, n, "operand not understood")
+                new = Val(self.arith(op[:-1], old.v, x.v, n, fr), old.src | x.src)
+                f2.env[did] = new
+                return new
+            a, b = self.value(l, fr), self.value(r, fr)
+            return Val(self.arith(op, a.v, b.v, n, fr), a.src | b.src)
+        if k == "ConditionalOperator":
+            c0, a, b = kids(n)
+            cv = self.value(c0, fr)
+            x = self.expr(a if cv.v else b, fr)
+            return Val(x.v, x.src | cv.src) if isinstance(x, Val) else x
+        raise self.und(fr, n, "expression not understood")
+
+    def wrap(self, v, n):
+        ty = n.get("ty") or ""
+        if isinstance(v, bool) or not isinstance(v, int):
+            return v
+        if v < 0 and ("unsigned" in ty or "size_t" in ty):
+            return v % U64
+        return v
+
+    def arith(self, op, a, b, n, fr):
+        a, b = int(a), int(b)
+        if op == "+":
+            return self.wrap(a + b, n)
+        if op == "-":
+            return self.wrap(a - b, n)
+        if op == "*":
+            return self.wrap(a * b, n)
+        table = {"==": a == b, "!=": a != b, "<": a < b, "<=": a <= b, ">": a > b, ">=": a >= b}
+        if op in table:
+            return table[op]
+        raise self.und(fr, n, "operator not modelled")
+
+    def local_target(self, n, fr, at):
+        n = sc(n)
+        if n is not None and n["k"] == "DeclRefExpr":
+            did = n["ref"]["id"]
+            v = fr.env.get(did)
+            if isinstance(v, tuple) and v[0] == "local":
+                return v[2], v[1]
+            if isinstance(v, tuple):
+                raise self.und(fr, at, "assignment target not understood")
+            if n["ref"].get("kind") in ("local", "param"):
+                return did, fr
+        raise self.und(fr, at, "assignment target not understood")
+
+    def call(self, n, fr):
+        c = n["callee"]
+        q = c.get("qname") or ""
+        args = kids(n)
+        if c["name"] in ("atomic_thread_fence", "atomic_signal_fence") and q.startswith("std::"):
+            if c["name"] == "atomic_thread_fence":
+                self.trace.append(dict(kind="fence", cell=None, order=self.order(args, 0, fr, n), idx=len(self.trace), what="fence"))
+            return None
+        if args:
+            cell = self.cell_of(args[0], fr)
+            if cell is not None:
+                if "atomic" not in q:
+                    raise self.und(fr, n, "operation on the counter not understood")
+                return self.atomic(n, cell, fr)
+        if "atomic" in q:
+            raise self.und(fr, n, "atomic operation not on the counter field")
+        callee = self.tu.by_did.get(c["did"])
+        if callee is None or callee.body is None or not callee.qname.startswith("tlx::"):
+            raise self.und(fr, n, "call not understood")
+        if n.get("member_call") or (n["k"] == "CXXOperatorCallExpr" and callee.record):
+            objn, argn = args[0], args[1:]
+            if callee.record != RC:
+                raise self.und(fr, n, "call not understood")
+            o0 = sc(objn)
+            this = fr.this if o0["k"] == "This" else self.obj_of(objn, fr)
+        else:
+            this, argn = None, args
+        return self.invoke(callee, this, argn, fr, n)
+
+    def invoke(self, callee, this, argn, fr, n):
+        if len(argn) != len(callee.params):
+            raise self.und(fr, n, "arity mismatch")
+        self.depth += 1
+        try:
+            if self.depth > 6:
+                raise dtable.Undecidable("inlining bound exceeded at %s" % callee.full)
+            f2 = CFrame(callee, this)
+            for p, a in zip(callee.params, argn):
+                a0 = sc(a)
+                pty = p["ty"]
+                cell = self.cell_of(a0, fr) if a0 is not None else None
+                if cell is not None and ("atomic" in pty):
+                    f2.env[p["did"]] = ("cell", cell)
+                elif "ReferenceCounter" in pty and is_ref_ty(pty):
+                    f2.env[p["did"]] = ("obj", self.obj_of(a0, fr))
+                elif is_ref_ty(pty) and not pty.startswith("const ") and a0 is not None and a0["k"] == "DeclRefExpr":
+                    did, f3 = self.local_target(a0, fr, n)
+                    f2.env[p["did"]] = ("local", f3, did)
+                else:
+                    f2.env[p["did"]] = self.value(a, fr)
+            return self.run_fn(callee, f2)
+        finally:
+            self.depth -= 1
+
+    def run_fn(self, fn, fr):
+        """initialisers (constructors) and body; the returned value (None for void)"""
+        for i in fn.inits:
+            e = i.get("e")
+            if i.get("delegating"):
+                e0 = sc(e)
+                tgt = self.tu.by_did.get(e0["callee"]["did"]) if e0 is not None and e0["k"] in CONSTRUCTS else None
+                if tgt is None or tgt.record != fn.record or tgt.body is None:
+                    raise dtable.Undecidable("%s: delegating constructor not understood" % fn.loc)
+                self.invoke(tgt, fr.this, kids(e0), fr, e0)
+            elif i.get("field") == COUNT_FIELD[0] and fn.record == RC:
+                self.init_counter(i, fn, fr)
+            elif e is not None and any(x["k"] == "MemberExpr" and x.get("member") == COUNT_FIELD[0] for x in ir.walk(e)):
+                raise dtable.Undecidable("%s: initialiser of %s uses the counter" % (fn.loc, i.get("field") or i.get("base")))
+        try:
+            self.stmt(fn.body, fr)
+        except CRet as r:
+            return r.v
+        return None
+
+    def init_counter(self, i, fn, fr):
+        e = i.get("e")
+        if e is not None and e["k"] == "CXXDefaultInitExpr" and kids(e):
+            e = kids(e)[0]
+            i = dict(i)
+            i["e"] = e
+        if e is None or e["k"] == "CXXDefaultInitExpr":
+            raise dtable.Undecidable("%s: default member initialiser of %s is not in the IR" % (fn.loc, COUNT_FIELD[0]))
+        e0 = sc(e)
+        args = [a for a in kids(e0) if a is not None and a["k"] != "DefaultArg"] if e0["k"] in CONSTRUCTS + ("InitListExpr",) else [e0]
+        if len(args) == 0:
+            # reference_count_() / {} value-initialises; no written initialiser leaves std::atomic's default constructor
+            self.cells[fr.this] = 0 if i.get("written") else INDET
+            self.trace.append(dict(kind="init", cell=fr.this, after=self.cells[fr.this], idx=len(self.trace), order=5, what="init"))
+            return
+        if len(args) != 1:
+            raise dtable.Undecidable("%s: initialiser of %s not understood" % (fn.loc, COUNT_FIELD[0]))
+        x = self.expr(args[0], fr)
+        if isinstance(x, tuple) and x[0] == "cell":
+            raise dtable.Undecidable("%s: %s is initialised from another atomic" % (fn.loc, COUNT_FIELD[0]))
+        if not isinstance(x, Val):
+            raise dtable.Undecidable("%s: initialiser of %s not understood" % (fn.loc, COUNT_FIELD[0]))
+        self.cells[fr.this] = int(x.v) % U64
+        self.trace.append(dict(kind="init", cell=fr.this, after=self.cells[fr.this], idx=len(self.trace), order=5, what="init"))
+
+    # ---------------------------------------------------------- statements
+    def branch(self, c, fr):
+        v = self.value(c, fr)
+        self.pc = self.pc | v.src
+        return bool(v.v)
+
+    def declare(self, v, fr):
+        if v is None or v["k"] in ("TypedefDecl", "TypeAliasDecl", "StaticAssertDecl", "UsingDecl", "UsingDirectiveDecl", "EmptyDecl"):
+            return
+        if v["k"] != "VarDecl":
+            raise self.und(fr, v, "declaration not understood")
+        if not kids(v) or kids(v)[0] is None:
+            return
+        init = kids(v)[0]
+        ty = v.get("ty") or ""
+        if v.get("isref") or is_ref_ty(ty):
+            i0 = sc(init)
+            cell = self.cell_of(i0, fr)
+            if cell is not None:
+                fr.env[v["did"]] = ("cell", cell)
+                return
+            if i0["k"] == "DeclRefExpr" and not ty.startswith("const "):
+                did, f2 = self.local_target(i0, fr, v)
+                fr.env[v["did"]] = ("local", f2, did)
+                return
+            if "ReferenceCounter" in ty:
+                fr.env[v["did"]] = ("obj", self.obj_of(i0, fr))
+                return
+        if "atomic" in ty:
+            raise self.und(fr, v, "local atomic object")
+        fr.env[v["did"]] = self.value(init, fr)
+
+    def stmt(self, s, fr):
+        if s is None:
+            return
+        self.steps += 1
+        if self.steps > 4000:
+            raise dtable.Undecidable("run of %s too long" % fr.fn.full)
+        k = s["k"]
+        if k == "CompoundStmt":
+            for c in kids(s):
+                self.stmt(c, fr)
+            return
+        if k == "IfStmt":
+            if isinstance(s.get("init"), dict):
+                self.stmt(s["init"], fr)
+            if isinstance(s.get("condvar"), dict):
+                self.declare(s["condvar"], fr)
+            c, t, e = (kids(s) + [None, None])[:3]
+            self.stmt(t if self.branch(c, fr) else e, fr)
+            return
+        if k in ("WhileStmt", "ForStmt", "DoStmt"):
+            if "init" in s or "condvar" in s:
+                raise self.und(fr, s, "loop with a condition variable")
+            init, cnd, inc, body = match.loop_parts(s)
+            if init is not None:
+                self.stmt(init, fr)
+            first = True
+            while True:
+                if not (k == "DoStmt" and first) and cnd is not None and not self.branch(cnd, fr):
+                    break
+                first = False
+                self.stmt(body, fr)        # break / continue are not modelled: Undecidable below
+                if inc is not None:
+                    self.expr(inc, fr)
+            return
+        if k == "ReturnStmt":
+            v = None
+            if kids(s) and kids(s)[0] is not None:
+                v = self.expr(kids(s)[0], fr)
+                if isinstance(v, Val):
+                    v = Val(v.v, v.src | self.pc)
+            raise CRet(v)
+        if k == "NullStmt" or is_assert(s):
+            return
+        if k == "DeclStmt":
+            for v in kids(s):
+                self.declare(v, fr)
+            return
+        if k in ("BreakStmt", "ContinueStmt", "SwitchStmt", "GotoStmt", "CXXTryStmt", "LabelStmt"):
+            raise self.und(fr, s, "statement not modelled")
+        self.expr(s, fr)
+
+
+def run_counter(tu, fn, cells, bind=None):
+    """runs member fn on object 'this'; bind: parameter index -> object name for ReferenceCounter parameters"""
+    run = CounterRun(tu, cells)
+    fr = CFrame(fn, "this")
+    for i, p in enumerate(fn.params):
+        if bind and i in bind:
+            fr.env[p["did"]] = ("obj", bind[i])
+        else:
+            raise dtable.Undecidable("%s: parameter %s not understood" % (fn.loc, p.get("name")))
+    if fn.body is None:
+        raise dtable.Undecidable("%s: no body in the IR" % fn.loc)
+    r = run.run_fn(fn, fr)
+    return run, r
+
+
+def mods(run, cell="this"):
+    return [e for e in run.trace if e["cell"] == cell and e["kind"] in ("rmw", "store", "init")]
+
+
+def trace_text(evs):
+    return ", then ".join(e["what"] for e in evs) or "no operation"
+
+
+def single_rmw(run, delta, before):
+    """None if the run changes the counter of 'this' by exactly one atomic RMW of `delta`; else a description of what it does"""
+    m = mods(run)
+    after = run.cells["this"]
+    if after != (before + delta) % U64:
+        return "for count %d it leaves count %s (%s)" % (before, after, trace_text(m))
+    if len(m) != 1 or m[0]["kind"] != "rmw":
+        return "for count %d the update is not one atomic read-modify-write: %s" % \
+            (before, trace_text([e for e in run.trace if e["cell"] == "this"]))
+    return None
+
+
 def check_refcounter(ck, tu):
-    resolve_count_field(tu)
+    fldrec = resolve_count_field(tu)
     inc = tu.one(qname=RC + "::inc_reference")
     dec = tu.one(qname=RC + "::dec_reference")
-    # inc: exactly one RMW that adds one, no other access
-    rm = [atomic_rmw(x) for x in ir.walk(inc.body)]
-    rm = [r for r in rm if r]
-    loads = [x for x in ir.walk(inc.body) if x["k"] == "MemberExpr" and match.this_field(x) == COUNT_FIELD[0]]
-    if len(rm) != 1 or rm[0][0] not in ("operator++", "operator++(post)", "fetch_add", "operator+=") or rm[0][2] != 1 or len(loads) != 1:
-        ck.violation("RC-ATOMIC-RMW", inc.qname, "inc", "inc_reference is not a single atomic increment by one", inc.loc)
+    # the counter field is atomic (decided first: the evaluation below models std::atomic operations only)
+    fty = fldrec["ty"].replace("mutable ", "").replace("volatile ", "").strip()
+    if fty.startswith("std::atomic<") or fty.startswith("std::__atomic_base<"):
+        ck.ok("RC-ATOMIC-RMW", RC + "::" + COUNT_FIELD[0], fldrec["ty"], nontrivial=False)
+    elif fty.replace("const ", "") in ("unsigned long", "unsigned int", "unsigned long long", "long", "int", "long long", "unsigned short",
+                                        "short", "size_t", "std::size_t", "unsigned char", "char", "signed char", "unsigned", "bool"):
+        ck.violation("RC-ATOMIC-RMW", RC, "field", "%s is not a std::atomic (its type is %s)" % (COUNT_FIELD[0], fldrec["ty"]), "tlx/counting_ptr.hpp")
     else:
-        ck.ok("RC-ATOMIC-RMW", inc.qname, "single atomic RMW %s" % rm[0][0])
-    # dec: the returned decision must be the RMW's own result
-    rets = [x for x in ir.walk(dec.body) if x["k"] == "ReturnStmt"]
-    rmws = [(x, atomic_rmw(x)) for x in ir.walk(dec.body) if atomic_rmw(x)]
-    accesses = [x for x in ir.walk(dec.body) if x["k"] == "MemberExpr" and match.this_field(x) == COUNT_FIELD[0]]
-    in_assert = set()
-    for s in kids(dec.body):
-        if s["k"] == "ConditionalOperator" and any(c.get("callee", {}).get("noreturn") for c in ir.walk(s) if "callee" in c):
-            for x in ir.walk(s):
-                in_assert.add(x["id"])
-    accesses = [x for x in accesses if x["id"] not in in_assert]
-    okd = False
-    why = "dec_reference does not decide on the result of its own atomic decrement"
-    def through_locals(e, depth=0):
-        """the expression a never-reassigned local stands for"""
-        e = strip_casts(e)
-        while e is not None and e["k"] == "ParenExpr":
-            e = strip_casts(kids(e)[0])
-        d = ref_of(e) if e is not None else None
-        if d is not None and depth < 4:
-            for v in ir.walk(dec.body):
-                if v["k"] == "VarDecl" and v.get("did") == d and kids(v) and kids(v)[0] is not None:
-                    reassigned = any(match.binop(z, ("=", "+=", "-=")) and ref_of(match.binop(z, ("=", "+=", "-="))[1]) == d
-                                     for z in ir.walk(dec.body) if z["k"] in ("BinaryOperator", "CompoundAssignOperator"))
-                    if not reassigned:
-                        return through_locals(kids(v)[0], depth + 1)
-        return e
-    if len(rets) > 1 and len(rmws) == 1 and len(accesses) == 1:
-        # if (--count != 0) return false; return true;   ->   one expression
-        body = [s_ for s_ in kids(dec.body) if not (s_ is not None and s_["k"] == "ConditionalOperator" and
-                                                    any(c_.get("callee", {}).get("noreturn") for c_ in ir.walk(s_) if "callee" in c_))]
-        body = [s_ for s_ in body if not (s_ is not None and s_["k"] in ("CXXStaticCastExpr", "CStyleCastExpr", "NullStmt", "ParenExpr") and
-                                          (s_.get("ty") == "void" or s_["k"] == "NullStmt"))]
-        whole = dtable.stmts_as_expr(body)
-        if whole is None:
-            raise dtable.Undecidable("%s: form of the release decision not understood (several returns)" % dec.loc)
-        rets = [{"k": "ReturnStmt", "id": -31, "ch": [whole]}]
-    if len(rets) == 1 and len(rmws) == 1 and len(accesses) == 1:
-        e = through_locals(kids(rets[0])[0])
-        node, (kind, order, amt) = rmws[0]
-
-        def evalx(x, X):
-            """the decision expression with the RMW's result replaced by the number X"""
-            x = through_locals(x)
-            if x is node or (x is not None and x.get("id") == node["id"] and x["k"] == node["k"]):
-                return X
-            c_ = const_int(x)
-            if c_ is not None:
-                return c_
-            if x["k"] == "UnaryOperator" and x.get("op") == "!":
-                v_ = evalx(kids(x)[0], X)
-                return None if v_ is None else int(not v_)
-            if x["k"] == "ConditionalOperator":
-                c__ = evalx(kids(x)[0], X)
-                return None if c__ is None else evalx(kids(x)[1] if c__ else kids(x)[2], X)
-            if x["k"] == "ParenExpr":
-                return evalx(kids(x)[0], X)
-            bb = match.binop(x, ("==", "!=", "<", "<=", ">", ">="))
-            if bb:
-                l_, r_ = evalx(bb[1], X), evalx(bb[2], X)
-                if l_ is None or r_ is None:
-                    return None
-                return int({"==": l_ == r_, "!=": l_ != r_, "<": l_ < r_, "<=": l_ <= r_, ">": l_ > r_, ">=": l_ >= r_}[bb[0]])
-            return None
-        if amt != 1:
-            raise dtable.Undecidable("%s: the reference count is changed by %s" % (dec.loc, amt))
-        new_is_result = kind in ("operator--", "operator-=")
-        rows = [(X, evalx(e, X)) for X in ((0, 1, 2, 3) if new_is_result else (1, 2, 3, 4))]
-        if any(v_ is None for _, v_ in rows):
-            raise dtable.Undecidable("%s: form of the release decision not understood: %s" % (dec.loc, dtable.describe(kids(rets[0])[0])))
-        want_true = 0 if new_is_result else 1
-        wrong = [(X, v_) for X, v_ in rows if bool(v_) != (X == want_true)]
-        if not wrong:
-            okd = True
-        else:
-            X, v_ = wrong[0]
-            why = "when the %s count is %d the release decision is %s (the object must be released exactly when the new count is 0)" \
-                % ("new" if new_is_result else "previous", X, bool(v_))
-        if okd and (order is None or order < 4):
-            okd = False
-            why = "decrement uses memory order %s, needs acq_rel or stronger" % ORDERS.get(order, "?")
-    elif len(accesses) > 1:
-        why = "the release decision re-reads reference_count_ after the decrement (not the RMW's own result): two releasing threads can both see zero"
-    if okd:
-        ck.ok("RC-ATOMIC-RMW", dec.qname, "decision is the result of the single atomic %s" % rmws[0][1][0])
+        raise dtable.Undecidable("ReferenceCounter: type %s of the counter field is not understood" % fldrec["ty"])
+    # inc: exactly one RMW that adds one (evaluated; loads do no harm)
+    bad = None
+    what = None
+    for c in (0, 1, 2):
+        run, _ = run_counter(tu, inc, {"this": c})
+        bad = single_rmw(run, +1, c)
+        if bad:
+            break
+        what = mods(run)[0]["what"]
+    if bad:
+        ck.violation("RC-ATOMIC-RMW", inc.qname, "inc", "inc_reference is not a single atomic increment by one: " + bad, inc.loc)
+    else:
+        ck.ok("RC-ATOMIC-RMW", inc.qname, "single atomic RMW %s" % what)
+    # dec: one RMW that subtracts one; the returned decision is that RMW's own result
+    why = None
+    what = None
+    for prev in (1, 2, 3, 4):
+        run, r = run_counter(tu, dec, {"this": prev})
+        bad = single_rmw(run, -1, prev)
+        if bad:
+            why = "dec_reference is not a single atomic decrement by one: " + bad
+            break
+        if not isinstance(r, Val):
+            raise dtable.Undecidable("%s: value returned by dec_reference not understood" % dec.loc)
+        rmw = mods(run)[0]
+        what = rmw["what"]
+        kinds = set(t for t, _ in r.src)
+        if "load" in kinds and "rmw" not in kinds:
+            why = "the release decision re-reads %s after the decrement (not the RMW's own result): two releasing threads can both see zero" \
+                % COUNT_FIELD[0]
+            break
+        if "load" in kinds:
+            raise dtable.Undecidable("%s: the release decision mixes the decrement's result with a separate read of %s" % (dec.loc, COUNT_FIELD[0]))
+        new = prev - 1
+        if bool(r.v) != (new == 0):
+            why = "when the new count is %d (previous %d) the release decision is %s (the object must be released exactly when the new count is 0)" \
+                % (new, prev, bool(r.v))
+            break
+        order = rmw["order"]
+        if order < 4:
+            fenced = order == 3 and (not r.v or any(e["kind"] == "fence" and e["order"] in (2, 4, 5) and e["idx"] > rmw["idx"] for e in run.trace))
+            if not fenced:
+                why = "decrement uses memory order %s, needs acq_rel or stronger" % ORDERS.get(order, "?")
+                break
+    if why is None:
+        ck.ok("RC-ATOMIC-RMW", dec.qname, "decision is the result of the single atomic %s" % what)
     else:
         ck.violation("RC-ATOMIC-RMW", dec.qname, "dec", why, dec.loc)
-    # the counter field is atomic
-    rec = tu.record(RC)
-    fld = [f for f in rec["fields"] if f["name"] == COUNT_FIELD[0]]
-    if not fld or not fld[0]["ty"].startswith("std::atomic<"):
-        ck.violation("RC-ATOMIC-RMW", RC, "field", "reference_count_ is not a std::atomic", "tlx/counting_ptr.hpp")
-    else:
-        ck.ok("RC-ATOMIC-RMW", RC + "::reference_count_", fld[0]["ty"], nontrivial=False)
     # copies start at zero, assignment keeps the count
     for fn in tu.find(record=RC):
         if fn.kind == "ctor":
-            init = [i for i in fn.inits if i.get("field") == COUNT_FIELD[0]]
-            v = None
-            if init:
-                for x in ir.walk(init[0]["e"]):
-                    if const_int(x) is not None:
-                        v = const_int(x)
-            if v != 0:
-                ck.violation("RC-COPY-ZERO", fn.qname, "ctor/%d" % len(fn.params), "a new ReferenceCounter does not start with count 0", fn.loc)
+            bind = {i: "other%d" % i for i, p in enumerate(fn.params) if "ReferenceCounter" in p["ty"]}
+            cells = {"this": INDET}
+            cells.update({o: 7 for o in bind.values()})
+            run, _ = run_counter(tu, fn, cells, bind)
+            v = run.cells["this"]
+            if v == INDET:
+                # closed world: every initialiser and statement was understood and none gives the counter a value
+                ck.violation("RC-COPY-ZERO", fn.qname, "ctor/%d" % len(fn.params),
+                             "a new ReferenceCounter does not start with count 0: the counter is left to std::atomic's default constructor "
+                             "(indeterminate before C++20)", fn.loc)
+            elif v != 0:
+                ck.violation("RC-COPY-ZERO", fn.qname, "ctor/%d" % len(fn.params),
+                             "a new ReferenceCounter does not start with count 0: it starts with %s%s" %
+                             (v, " (the count of the copied object)" if v == 7 else ""), fn.loc)
             else:
-                ck.ok("RC-COPY-ZERO", "%s/%d" % (fn.qname, len(fn.params)), "reference_count_(0)")
+                ck.ok("RC-COPY-ZERO", "%s/%d" % (fn.qname, len(fn.params)), "%s(0)" % COUNT_FIELD[0])
         if fn.d.get("copy_assign"):
-            touched = [x for x in ir.walk(fn.body) if x["k"] == "MemberExpr" and match.this_field(x) == COUNT_FIELD[0]]
-            if touched:
-                ck.violation("RC-COPY-ZERO", fn.qname, "assign", "assignment of the pointee modifies its reference count", fn.loc)
+            run, _ = run_counter(tu, fn, {"this": 3, "other0": 7}, {0: "other0"})
+            if run.cells["this"] != 3:
+                ck.violation("RC-COPY-ZERO", fn.qname, "assign",
+                             "assignment of the pointee modifies its reference count: 3 becomes %s (%s)" % (run.cells["this"], trace_text(mods(run))), fn.loc)
             else:
                 ck.ok("RC-COPY-ZERO", fn.qname, "assignment leaves the count alone")
     un = tu.one(qname=RC + "::unique")
-    e = kids([x for x in ir.walk(un.body) if x["k"] == "ReturnStmt"][0])[0]
-    b = match.binop(e, ("==",))
-    if not (b and const_int(b[2]) == 1):
-        ck.violation("UNIFY-GUARD", un.qname, "unique", "unique() is not (count == 1)", un.loc)
+    bad = None
+    for c in (0, 1, 2, 3):
+        run, r = run_counter(tu, un, {"this": c})
+        if not isinstance(r, Val):
+            raise dtable.Undecidable("%s: value returned by unique() not understood" % un.loc)
+        if run.cells["this"] != c:
+            bad = "it changes the count %d to %s" % (c, run.cells["this"])
+        elif bool(r.v) != (c == 1):
+            bad = "for count %d it returns %s" % (c, bool(r.v))
+        if bad:
+            break
+    if bad:
+        ck.violation("UNIFY-GUARD", un.qname, "unique", "unique() is not (count == 1): " + bad, un.loc)
     else:
         ck.ok("UNIFY-GUARD", un.qname, "count == 1")
 
